@@ -4,6 +4,7 @@ package main
 // interposer, handshake helpers.  Used by the C06/C07/C08/C15/C16 drivers.
 
 import (
+	"crypto/rand"
 	"errors"
 	"fmt"
 	"io"
@@ -257,6 +258,19 @@ func gmClientConfig(f *fixtures, suites []uint16) *gmtls.Config {
 }
 
 // gmPair establishes a GMSSL connection through a (transparent) interposer.
+// gmPairRand: the same with a random source for both ends that hands out at most 3 bytes per Read (an io.Reader may
+// return short reads; whoever needs n random bytes has to keep reading)
+var gmPairShortRand bool
+
+type shortRand struct{}
+
+func (shortRand) Read(p []byte) (int, error) {
+	if len(p) > 3 {
+		p = p[:3]
+	}
+	return rand.Read(p)
+}
+
 func gmPair(suite uint16) (cli, srv *gmtls.Conn, m *mitm, err error) {
 	f, err := loadFixtures()
 	if err != nil {
@@ -265,8 +279,12 @@ func gmPair(suite uint16) (cli, srv *gmtls.Conn, m *mitm, err error) {
 	ce, se, m := newMitm()
 	cc := gmClientConfig(f, []uint16{suite})
 	cc.InsecureSkipVerify = true // identity is C08's subject; here only the record layer matters
+	scfg := gmServerConfig(f, []uint16{suite})
+	if gmPairShortRand {
+		cc.Rand, scfg.Rand = shortRand{}, shortRand{}
+	}
 	cli = gmtls.Client(ce, cc)
-	srv = gmtls.Server(se, gmServerConfig(f, []uint16{suite}))
+	srv = gmtls.Server(se, scfg)
 	ht.register(cli)
 	ht.register(srv)
 	r := runHandshake(cli, srv, 10*time.Second)
